@@ -1,10 +1,234 @@
-(** C13 -- secret-sharing algebra of crates/sl-mpc-mate/src/math.rs. Statements only. *)
-From SL Require Import Lib.Base Model.Poly Proofs.PolyFact.
+(** C13 -- secret-sharing algebra of crates/sl-mpc-mate/src/math.rs: factorial table, derivatives, evaluation,
+    commitments, Birkhoff/Lagrange coefficients, Feldman check.  Statements only; proofs in Proofs/Poly*.v.
+    Scalars are integers reduced modulo the parameter q; groups are abstract Z_q-modules (module_laws). *)
+From SL Require Import Lib.Base Model.Matrix Model.Poly Model.PolyDlog Model.PolyBirkhoff.
+From SL Require Import Proofs.PolyFact Proofs.PolySum Proofs.PolyDeriv Proofs.PolyGroup Proofs.PolyDlog
+  Proofs.PolyBirkhoff.
 Local Open Scope Z_scope.
 
-Theorem factorial_range_spec : forall q s e, (s <= e)%nat -> Z.of_nat e < 2 ^ 64 ->
+(** The 21-entry u64 table computed by the model of small_factorial (with the u64 wrap written in) equals
+    the table computed without wrap: no entry overflows (0! .. 20!). *)
+Theorem fact_table_no_overflow :
+  FACT = exact_factorial_table FACT_LEN.
+Proof. exact FACT_no_overflow. Qed.
+Check fact_table_no_overflow :
+  FACT = exact_factorial_table FACT_LEN.
+Print Assumptions fact_table_no_overflow.
+
+(** factorial_range s e is the product of the integers in (s, e] modulo q, in the table branch (e < 21, u64
+    division) and in the product branch (e >= 21) alike; e < 2^64 is the range of usize. *)
+Theorem factorial_range_spec :
+  forall (q : Z) (s e : nat), (s <= e)%nat -> Z.of_nat e < 2 ^ 64 ->
   factorial_range q s e = range_prod s e mod q.
 Proof. exact PolyFact.factorial_range_spec. Qed.
-Check factorial_range_spec : forall q s e, (s <= e)%nat -> Z.of_nat e < 2 ^ 64 ->
+Check factorial_range_spec :
+  forall (q : Z) (s e : nat), (s <= e)%nat -> Z.of_nat e < 2 ^ 64 ->
   factorial_range q s e = range_prod s e mod q.
 Print Assumptions factorial_range_spec.
+
+(** Polynomial::evaluate_at (power sum with independently computed powers) is integer evaluation modulo q. *)
+Theorem evaluate_at_spec :
+  forall (q : Z) (f : list Z) (x : Z), evaluate_at q f x = peval f x mod q.
+Proof. exact PolyDeriv.evaluate_at_spec. Qed.
+Check evaluate_at_spec :
+  forall (q : Z) (f : list Z) (x : Z), evaluate_at q f x = peval f x mod q.
+Print Assumptions evaluate_at_spec.
+
+(** Polynomial::derivative_at(n, x) is the n-th formal derivative evaluated at x, modulo q -- for every
+    number of coefficients (no bound at 24) and every order, including orders above the degree. *)
+Theorem derivative_at_spec :
+  forall (q : Z) (f : list Z) (n : nat) (x : Z), Z.of_nat (length f) <= 2 ^ 64 ->
+  derivative_at q f n x = peval (Nat.iter n pderiv f) x mod q.
+Proof. exact PolyDeriv.derivative_at_spec. Qed.
+Check derivative_at_spec :
+  forall (q : Z) (f : list Z) (n : nat) (x : Z), Z.of_nat (length f) <= 2 ^ 64 ->
+  derivative_at q f n x = peval (Nat.iter n pderiv f) x mod q.
+Print Assumptions derivative_at_spec.
+
+(** The two evaluation algorithms of the code coincide: the running-power fold of
+    GroupPolynomial::evaluate_at / feldman_verify computes the power sum sum_i (x^i) F_i, in every Z_q-module. *)
+Theorem eval_agree :
+  forall (q : Z) (G : Type) (gadd : G -> G -> G) (gneg : G -> G) (gid : G) (smul : Z -> G -> G)
+    (geqb : G -> G -> bool) (gen : G),
+  module_laws q G gadd gneg gid smul geqb gen ->
+  forall (F : list G) (x : Z),
+  g_evaluate_at q G gadd gid smul F x = g_power_sum q G gadd gid smul x 0 F.
+Proof. exact PolyGroup.eval_agree. Qed.
+Check eval_agree :
+  forall (q : Z) (G : Type) (gadd : G -> G -> G) (gneg : G -> G) (gid : G) (smul : Z -> G -> G)
+    (geqb : G -> G -> bool) (gen : G),
+  module_laws q G gadd gneg gid smul geqb gen ->
+  forall (F : list G) (x : Z),
+  g_evaluate_at q G gadd gid smul F x = g_power_sum q G gadd gid smul x 0 F.
+Print Assumptions eval_agree.
+
+(** Commitment commutes with evaluation: evaluating the committed polynomial in the group gives f(x)*gen. *)
+Theorem commit_eval :
+  forall (q : Z) (G : Type) (gadd : G -> G -> G) (gneg : G -> G) (gid : G) (smul : Z -> G -> G)
+    (geqb : G -> G -> bool) (gen : G),
+  module_laws q G gadd gneg gid smul geqb gen ->
+  forall (f : list Z) (x : Z),
+  g_evaluate_at q G gadd gid smul (commit G smul gen f) x = smul (evaluate_at q f x) gen.
+Proof. exact PolyGroup.commit_eval. Qed.
+Check commit_eval :
+  forall (q : Z) (G : Type) (gadd : G -> G -> G) (gneg : G -> G) (gid : G) (smul : Z -> G -> G)
+    (geqb : G -> G -> bool) (gen : G),
+  module_laws q G gadd gneg gid smul geqb gen ->
+  forall (f : list Z) (x : Z),
+  g_evaluate_at q G gadd gid smul (commit G smul gen f) x = smul (evaluate_at q f x) gen.
+Print Assumptions commit_eval.
+
+(** Commitment commutes with derivatives: derivative_coeffs(n) of the commitment is the commitment to the n-th
+    formal derivative (n <= number of coefficients; beyond that the code's slice panics, next theorem). *)
+Theorem commit_derivative :
+  forall (q : Z) (G : Type) (gadd : G -> G -> G) (gneg : G -> G) (gid : G) (smul : Z -> G -> G)
+    (geqb : G -> G -> bool) (gen : G),
+  module_laws q G gadd gneg gid smul geqb gen ->
+  forall (f : list Z) (n : nat), (n <= length f)%nat -> Z.of_nat (length f) <= 2 ^ 64 ->
+  g_derivative_coeffs q G smul (commit G smul gen f) n = Val (commit G smul gen (Nat.iter n pderiv f)).
+Proof. exact PolyGroup.commit_derivative. Qed.
+Check commit_derivative :
+  forall (q : Z) (G : Type) (gadd : G -> G -> G) (gneg : G -> G) (gid : G) (smul : Z -> G -> G)
+    (geqb : G -> G -> bool) (gen : G),
+  module_laws q G gadd gneg gid smul geqb gen ->
+  forall (f : list Z) (n : nat), (n <= length f)%nat -> Z.of_nat (length f) <= 2 ^ 64 ->
+  g_derivative_coeffs q G smul (commit G smul gen f) n = Val (commit G smul gen (Nat.iter n pderiv f)).
+Print Assumptions commit_derivative.
+
+(** derivative_coeffs with an order above the number of coefficients panics (slice start out of range). *)
+Theorem commit_derivative_panics :
+  forall (q : Z) (G : Type) (smul : Z -> G -> G) (gen : G) (f : list Z) (n : nat), (length f < n)%nat ->
+  is_panic (g_derivative_coeffs q G smul (commit G smul gen f) n) = true.
+Proof. exact PolyGroup.commit_derivative_panics. Qed.
+Check commit_derivative_panics :
+  forall (q : Z) (G : Type) (smul : Z -> G -> G) (gen : G) (f : list Z) (n : nat), (length f < n)%nat ->
+  is_panic (g_derivative_coeffs q G smul (commit G smul gen f) n) = true.
+Print Assumptions commit_derivative_panics.
+
+(** Evaluating the group-side derivative coefficients at x gives f^(n)(x)*gen with f^(n)(x) the scalar-side derivative_at. *)
+Theorem commit_derivative_eval :
+  forall (q : Z) (G : Type) (gadd : G -> G -> G) (gneg : G -> G) (gid : G) (smul : Z -> G -> G)
+    (geqb : G -> G -> bool) (gen : G),
+  module_laws q G gadd gneg gid smul geqb gen ->
+  forall (f : list Z) (n : nat) (x : Z) (D : list G), (n <= length f)%nat -> Z.of_nat (length f) <= 2 ^ 64 ->
+  g_derivative_coeffs q G smul (commit G smul gen f) n = Val D ->
+  g_evaluate_at q G gadd gid smul D x = smul (derivative_at q f n x) gen.
+Proof. exact PolyGroup.commit_derivative_eval. Qed.
+Check commit_derivative_eval :
+  forall (q : Z) (G : Type) (gadd : G -> G -> G) (gneg : G -> G) (gid : G) (smul : Z -> G -> G)
+    (geqb : G -> G -> bool) (gen : G),
+  module_laws q G gadd gneg gid smul geqb gen ->
+  forall (f : list Z) (n : nat) (x : Z) (D : list G), (n <= length f)%nat -> Z.of_nat (length f) <= 2 ^ 64 ->
+  g_derivative_coeffs q G smul (commit G smul gen f) n = Val D ->
+  g_evaluate_at q G gadd gid smul D x = smul (derivative_at q f n x) gen.
+Print Assumptions commit_derivative_eval.
+
+(** Interpolation identity. If the matrix model returns Minv for the Birkhoff matrix of params and Minv is a left
+    inverse (the conclusion of C20's inverse_correct, a premise here), then birkhoff_coeffs returns b = row 0 of
+    Minv and sum_i b_i * f^(r_i)(x_i) = f(0) (mod q) for every f with n = |params| coefficients. *)
+Theorem birkhoff_interpolates :
+  forall (q : Z) (params : list (Z * nat)), params <> [] ->
+  forall (Minv : mat) (f : list Z),
+  Z.of_nat (length params) <= 2 ^ 64 -> length f = length params ->
+  matrix_inverse q (birkhoff_matrix q params) (length params) = Val Minv ->
+  mat_mul q Minv (birkhoff_matrix q params) = mat_id (length params) ->
+  exists b : list Z,
+    birkhoff_coeffs q params = Val b /\
+    bigsum (length params)
+      (fun i : nat => nth i b 0 * derivative_at q f (snd (nth i params (0, 0%nat))) (fst (nth i params (0, 0%nat))))
+    mod q = evaluate_at q f 0.
+Proof. exact PolyBirkhoff.birkhoff_interpolates. Qed.
+Check birkhoff_interpolates :
+  forall (q : Z) (params : list (Z * nat)), params <> [] ->
+  forall (Minv : mat) (f : list Z),
+  Z.of_nat (length params) <= 2 ^ 64 -> length f = length params ->
+  matrix_inverse q (birkhoff_matrix q params) (length params) = Val Minv ->
+  mat_mul q Minv (birkhoff_matrix q params) = mat_id (length params) ->
+  exists b : list Z,
+    birkhoff_coeffs q params = Val b /\
+    bigsum (length params)
+      (fun i : nat => nth i b 0 * derivative_at q f (snd (nth i params (0, 0%nat))) (fst (nth i params (0, 0%nat))))
+    mod q = evaluate_at q f 0.
+Print Assumptions birkhoff_interpolates.
+
+(** The same identity in the exponent for the committed polynomial: sum_i b_i * F^(r_i)(x_i) = f(0)*gen = F_0, where
+    F^(r)(x) is evaluate_at of derivative_coeffs(r) of the commitment (no call panics when every rank is <= n). *)
+Theorem birkhoff_interpolates_exponent :
+  forall (q : Z) (G : Type) (gadd : G -> G -> G) (gneg : G -> G) (gid : G) (smul : Z -> G -> G)
+    (geqb : G -> G -> bool) (gen : G),
+  module_laws q G gadd gneg gid smul geqb gen ->
+  forall (params : list (Z * nat)) (Minv : mat) (f : list Z),
+  params <> [] -> Z.of_nat (length params) <= 2 ^ 64 -> length f = length params ->
+  (forall i : nat, (i < length params)%nat -> (snd (nth i params (0%Z, 0%nat)) <= length params)%nat) ->
+  matrix_inverse q (birkhoff_matrix q params) (length params) = Val Minv ->
+  mat_mul q Minv (birkhoff_matrix q params) = mat_id (length params) ->
+  exists (b : list Z) (D : nat -> G),
+    birkhoff_coeffs q params = Val b /\
+    (forall i : nat, (i < length params)%nat ->
+       g_derivative_at q G gadd gid smul (commit G smul gen f) (snd (nth i params (0, 0%nat)))
+         (fst (nth i params (0, 0%nat))) = Val (D i)) /\
+    gbig G gadd gid (length params) (fun i : nat => smul (nth i b 0) (D i)) = smul (evaluate_at q f 0) gen /\
+    g_get_constant G (commit G smul gen f) = Val (smul (nth 0 f 0) gen) /\
+    smul (evaluate_at q f 0) gen = smul (nth 0 f 0) gen.
+Proof. exact PolyBirkhoff.birkhoff_interpolates_exponent. Qed.
+Check birkhoff_interpolates_exponent :
+  forall (q : Z) (G : Type) (gadd : G -> G -> G) (gneg : G -> G) (gid : G) (smul : Z -> G -> G)
+    (geqb : G -> G -> bool) (gen : G),
+  module_laws q G gadd gneg gid smul geqb gen ->
+  forall (params : list (Z * nat)) (Minv : mat) (f : list Z),
+  params <> [] -> Z.of_nat (length params) <= 2 ^ 64 -> length f = length params ->
+  (forall i : nat, (i < length params)%nat -> (snd (nth i params (0%Z, 0%nat)) <= length params)%nat) ->
+  matrix_inverse q (birkhoff_matrix q params) (length params) = Val Minv ->
+  mat_mul q Minv (birkhoff_matrix q params) = mat_id (length params) ->
+  exists (b : list Z) (D : nat -> G),
+    birkhoff_coeffs q params = Val b /\
+    (forall i : nat, (i < length params)%nat ->
+       g_derivative_at q G gadd gid smul (commit G smul gen f) (snd (nth i params (0, 0%nat)))
+         (fst (nth i params (0, 0%nat))) = Val (D i)) /\
+    gbig G gadd gid (length params) (fun i : nat => smul (nth i b 0) (D i)) = smul (evaluate_at q f 0) gen /\
+    g_get_constant G (commit G smul gen f) = Val (smul (nth 0 f 0) gen) /\
+    smul (evaluate_at q f 0) gen = smul (nth 0 f 0) gen.
+Print Assumptions birkhoff_interpolates_exponent.
+
+(** Feldman check: for a non-zero share v, feldman_verify on the commitment of f accepts exactly when v = f(x). *)
+Theorem feldman_iff :
+  forall (q : Z) (G : Type) (gadd : G -> G -> G) (gneg : G -> G) (gid : G) (smul : Z -> G -> G)
+    (geqb : G -> G -> bool) (gen : G),
+  module_laws q G gadd gneg gid smul geqb gen ->
+  forall (f : list Z) (x v : Z), v mod q <> 0 ->
+  (feldman_verify q G gadd gid smul geqb (commit G smul gen f) x v gen = true <-> v mod q = evaluate_at q f x).
+Proof. exact PolyGroup.feldman_iff. Qed.
+Check feldman_iff :
+  forall (q : Z) (G : Type) (gadd : G -> G -> G) (gneg : G -> G) (gid : G) (smul : Z -> G -> G)
+    (geqb : G -> G -> bool) (gen : G),
+  module_laws q G gadd gneg gid smul geqb gen ->
+  forall (f : list Z) (x v : Z), v mod q <> 0 ->
+  (feldman_verify q G gadd gid smul geqb (commit G smul gen f) x v gen = true <-> v mod q = evaluate_at q f x).
+Print Assumptions feldman_iff.
+
+(** Feldman check, all shares: acceptance <-> (f(x) <> 0 and v = f(x)); in particular the identity point is rejected
+    whatever the share (the code's is_identity test). *)
+Theorem feldman_accepts_iff :
+  forall (q : Z) (G : Type) (gadd : G -> G -> G) (gneg : G -> G) (gid : G) (smul : Z -> G -> G)
+    (geqb : G -> G -> bool) (gen : G),
+  module_laws q G gadd gneg gid smul geqb gen ->
+  forall (f : list Z) (x v : Z),
+  feldman_verify q G gadd gid smul geqb (commit G smul gen f) x v gen = true <->
+  (evaluate_at q f x <> 0 /\ v mod q = evaluate_at q f x).
+Proof. exact PolyGroup.feldman_accepts_iff. Qed.
+Check feldman_accepts_iff :
+  forall (q : Z) (G : Type) (gadd : G -> G -> G) (gneg : G -> G) (gid : G) (smul : Z -> G -> G)
+    (geqb : G -> G -> bool) (gen : G),
+  module_laws q G gadd gneg gid smul geqb gen ->
+  forall (f : list Z) (x v : Z),
+  feldman_verify q G gadd gid smul geqb (commit G smul gen f) x v gen = true <->
+  (evaluate_at q f x <> 0 /\ v mod q = evaluate_at q f x).
+Print Assumptions feldman_accepts_iff.
+
+(** Non-vacuity of the module_laws hypothesis: the discrete-log instance (Z_q, +, gen = 1) satisfies it for every q. *)
+Theorem group_laws_satisfiable :
+  forall q : Z, module_laws q (zq q) (dl_add q) (dl_neg q) (dl_id q) (dl_smul q) (dl_eqb q) (dl_gen q).
+Proof. exact PolyDlog.dlog_laws. Qed.
+Check group_laws_satisfiable :
+  forall q : Z, module_laws q (zq q) (dl_add q) (dl_neg q) (dl_id q) (dl_smul q) (dl_eqb q) (dl_gen q).
+Print Assumptions group_laws_satisfiable.
